@@ -22,7 +22,7 @@ at `st`, when the recorded depth does not exceed the live depth: control goes to
 stack is cut to exactly `st + h.slotDepth` slots and everything below is untouched. -/
 theorem stackUnwind_core (f : Fiber) (h : Handler) (rest : List Handler) (fr : Frame)
     (bottom : Option Nat)
-    (hh : f.handlers = h :: rest) (hpos : 0 < h.frameDepth) (hb : bottom.getD 0 ≤ h.frameDepth)
+    (hh : f.handlers = h :: rest) (hb : bottom.getD 0 < h.frameDepth)
     (hfr : f.frames[h.frameDepth - 1]? = some fr)
     (hd : fr.start + h.slotDepth ≤ f.stack.length) :
     f.stackUnwind bottom =
@@ -33,8 +33,7 @@ theorem stackUnwind_core (f : Fiber) (h : Handler) (rest : List Handler) (fr : F
                  stack := f.stack.take (fr.start + h.slotDepth) }) := by
   unfold Fiber.stackUnwind
   rw [hh]
-  have h0 : ¬ h.frameDepth = 0 := by omega
-  simp only [hb, ↓reduceIte, h0, hfr, setTop_le _ _ hd]
+  simp only [hb, ↓reduceIte, hfr, setTop_le _ _ hd]
 
 theorem storeIp_fields (f : Fiber) :
     f.storeIp.handlers = f.handlers ∧ f.storeIp.stack = f.stack ∧ f.storeIp.error = f.error ∧
@@ -60,14 +59,14 @@ theorem storeIp_fields (f : Fiber) :
 
 /-- **C04_unwind_restores (mechanism).**  For ANY fiber state in which handler `h` is innermost — any
 number of frames above the handler's frame, any number of temporaries above the recorded depth — a
-raise (explicit, runtime or native error, in normal mode or inside a native re-entry at depth
-`≤ h.frameDepth`) resumes at `h.offset` in frame `h.frameDepth`, with `h.frameDepth` frames left
+raise (explicit, runtime or native error, in normal mode or inside a native re-entry whose bottom
+frame is strictly below `h.frameDepth`) resumes at `h.offset` in frame `h.frameDepth`, with `h.frameDepth` frames left
 after `FinishUnwind`, the handler still installed for the clause tests, and every stack slot below
 `start + h.slotDepth` — all slots of the frames below and the first `h.slotDepth` slots of the
 handler's frame — unchanged. -/
 theorem C04_unwind_restores_mechanism (f : Fiber) (h : Handler) (rest : List Handler) (st : Nat)
     (mode : Option Nat)
-    (hh : f.handlers = h :: rest) (hpos : 0 < h.frameDepth) (hb : mode.getD 0 ≤ h.frameDepth)
+    (hh : f.handlers = h :: rest) (hb : mode.getD 0 < h.frameDepth)
     (hfr : (f.frames[h.frameDepth - 1]?).map Frame.start = some st)
     (hd : st + h.slotDepth ≤ f.stack.length) :
     (f.raise mode).1 = .potentiallyHandled ∧
@@ -89,7 +88,7 @@ theorem C04_unwind_restores_mechanism (f : Fiber) (h : Handler) (rest : List Han
     rcases Nat.lt_or_ge (h.frameDepth - 1) f.storeIp.frames.length with h' | h'
     · exact h'
     · rw [List.getElem?_eq_none h'] at hfr1; cases hfr1
-  have hcore := stackUnwind_core f.storeIp h rest fr1 mode (s1 ▸ hh) hpos hb hfr1
+  have hcore := stackUnwind_core f.storeIp h rest fr1 mode (s1 ▸ hh) hb hfr1
     (by rw [s2, hst1]; exact hd)
   have hraise : f.raise mode =
       (.potentiallyHandled,
@@ -144,7 +143,7 @@ theorem C04_unwind_restores
     rw [this]
     simp [hst]
   have := C04_unwind_restores_mechanism f ⟨f0.ip + 5 + jump, f0.frames.length, rd⟩ f0.handlers
-    fr.start none hH (by simp [hk]) (by simp) hget
+    fr.start none hH (by simp [hk]) hget
     (by simp only [hstack, List.length_append, hbase, hrec]; omega)
   obtain ⟨h1, h2, h3, h4, _, _, _, _, h9⟩ := this
   refine ⟨h1, h2, ?_, ?_, h9⟩
@@ -343,35 +342,52 @@ theorem C04_raise_only_errors (f : Fiber) (s : List Val) (v : Val) (hs : f.stack
 
 /-! ### C04_native_boundary -/
 
-/-- **C04_native_boundary (partial: the fiber-level rule).**  While native code has re-entered the
+/-- **C04_native_boundary (the fiber-level rule).**  While native code has re-entered the
 interpreter at frame count `b` (`ExecutionMode::CallingNativeCode(b)`), an unwind either resumes in
-a handler whose frame is NOT below the re-entry depth, or stops without touching the fiber — error
-still set, so `to_call_result` hands `Call::Err(error)` back to the native, whose caller
-(`call_native`) signals it again in the outer mode.  It never reports `Unhandled` (prints no
-traceback) from inside the re-entry. -/
-theorem C04_native_boundary_partial (f : Fiber) (b : Nat) :
+a handler whose frame is STRICTLY ABOVE the re-entry depth — a handler installed by code this nested
+loop itself runs — or stops without touching the fiber — error still set, so `to_call_result` hands
+`Call::Err(error)` back to the native, whose caller (`call_native`) signals it again in the outer
+mode.  It never reports `Unhandled` (prints no traceback) from inside the re-entry, and it stops
+exactly when there is no handler or the innermost one sits at or below the re-entry depth. -/
+theorem C04_native_boundary (f : Fiber) (b : Nat) :
     (f.stackUnwind (some b)).1 ≠ .unhandled ∧
     ((f.stackUnwind (some b)).1 = .unwindStopped → (f.stackUnwind (some b)).2 = f) ∧
     ((f.stackUnwind (some b)).1 = .potentiallyHandled →
-      ∃ h rest, f.handlers = h :: rest ∧ b ≤ h.frameDepth ∧
+      ∃ h rest, f.handlers = h :: rest ∧ b < h.frameDepth ∧
         (f.stackUnwind (some b)).2.cur + 1 = h.frameDepth ∧
-        (f.stackUnwind (some b)).2.handlers = f.handlers) := by
+        (f.stackUnwind (some b)).2.handlers = f.handlers) ∧
+    ((f.stackUnwind (some b)).1 = .unwindStopped ↔
+      (f.handlers = [] ∨ ∃ h rest, f.handlers = h :: rest ∧ h.frameDepth ≤ b)) := by
   unfold Fiber.stackUnwind
   cases hh : f.handlers with
   | nil => simp
   | cons h rest =>
     simp only [Option.getD_some]
-    by_cases hb : b ≤ h.frameDepth
+    by_cases hb : b < h.frameDepth
     · simp only [hb, ↓reduceIte]
-      by_cases h0 : h.frameDepth = 0
-      · simp [h0]
-      · simp only [h0, ↓reduceIte]
-        cases hfr : f.frames[h.frameDepth - 1]? with
-        | none => simp
-        | some fr =>
-          refine ⟨by simp, by simp, fun _ => ⟨h, rest, rfl, hb, ?_, rfl⟩⟩
-          simp only; omega
-    · simp [hb]
+      cases hfr : f.frames[h.frameDepth - 1]? with
+      | none =>
+        refine ⟨by simp, by simp, by simp, ?_⟩
+        constructor
+        · intro hx; cases hx
+        · intro hx
+          rcases hx with hx | ⟨h', rest', hx, hle⟩
+          · cases hx
+          · cases hx; omega
+      | some fr =>
+        refine ⟨by simp, by simp, fun _ => ⟨h, rest, rfl, hb, ?_, rfl⟩, ?_⟩
+        · simp only; omega
+        · constructor
+          · intro hx; cases hx
+          · intro hx
+            rcases hx with hx | ⟨h', rest', hx, hle⟩
+            · cases hx
+            · cases hx; omega
+    · simp only [hb, ↓reduceIte]
+      refine ⟨by simp, by simp, by simp, ?_⟩
+      constructor
+      · intro _; exact Or.inr ⟨h, rest, rfl, by omega⟩
+      · intro _; trivial
 
 /-- non-vacuity: handler in the script frame (depth 1), native re-entered at depth 2 (script + native
 stub), callback frame on top: the unwind stops; the same raise in normal mode reaches the handler. -/
@@ -381,17 +397,237 @@ example :
     (f.stackUnwind (some 2)).1 = .unwindStopped ∧ (f.raise none).1 = .potentiallyHandled ∧
     (f.raise none).2.ip = 77 := by decide +kernel
 
-/-- **C04_witness_stackless_native (D185).**  The rule compares with `>=`.  A native that runs in the
-caller's frame (`NativeEnvironment::StackLess`: no stub frame is pushed) re-enters the interpreter
-with `bottom_frame` = the caller's own frame count, so a handler of the CALLER's frame
-(`frameDepth = bottom_frame`) passes the test: the unwind resumes in the caller's catch clause while
-the native is still running on the host stack (the nested `execute` never returns to it).  With a
-stub frame (`Normal` environment: `bottom_frame = frameDepth + 1`) the same raise stops. -/
-theorem C04_witness_stackless_native :
+theorem storeIp_idem (f : Fiber) : f.storeIp.storeIp = f.storeIp := by
+  unfold Fiber.storeIp
+  cases hfr : f.frames[f.cur]? with
+  | none => simp [hfr]
+  | some fr =>
+    have hlt : f.cur < f.frames.length := by
+      rcases Nat.lt_or_ge f.cur f.frames.length with h | h
+      · exact h
+      · rw [List.getElem?_eq_none h] at hfr; cases hfr
+    simp [hlt]
+
+/-- an unwind that stops leaves the fiber as `store_ip` left it -/
+theorem raise_stopped (f : Fiber) (h : Handler) (rest : List Handler) (b : Nat)
+    (hh : f.handlers = h :: rest) (hle : h.frameDepth ≤ b) :
+    f.raise (some b) = (.unwindStopped, f.storeIp) := by
+  have s1 := (storeIp_fields f).1
+  unfold Fiber.raise Fiber.stackUnwind
+  rw [s1, hh]
+  have : ¬ b < h.frameDepth := by omega
+  simp [this]
+
+theorem raise_stopped_nil (f : Fiber) (b : Nat) (hh : f.handlers = []) :
+    f.raise (some b) = (.unwindStopped, f.storeIp) := by
+  have s1 := (storeIp_fields f).1
+  unfold Fiber.raise Fiber.stackUnwind
+  rw [s1, hh]
+
+/-- `raise` only looks at the fiber after `store_ip` -/
+theorem raise_storeIp (f : Fiber) (mode : Option Nat) : f.storeIp.raise mode = f.raise mode := by
+  unfold Fiber.raise
+  rw [storeIp_idem]
+
+theorem raiseThrough_storeIp (f : Fiber) (levels : List Nat) :
+    f.storeIp.raiseThrough levels = f.raiseThrough levels := by
+  cases levels with
+  | nil => simp [Fiber.raiseThrough, raise_storeIp]
+  | cons b outer => simp [Fiber.raiseThrough, raise_storeIp]
+
+/-- **C04_raise_through_natives.**  An error signalled under ANY chain of native re-entries
+(`levels`: their bottom frames, innermost first — any number, any depths) is delivered to the
+innermost handler `h` of the Laythe-level call chain — never to a later one, whatever native frames
+lie in between — with exactly the state `C04_unwind_restores_mechanism` describes (catch offset,
+frames to cut, stack cut to the recorded depth, everything below untouched, error kept), and at
+that moment precisely the re-entries whose bottom frame is at or above the handler's frame have
+returned: the catch clause runs in the interpreter loop that remains innermost after dropping them,
+never nested inside a native that was called from the handler's own frame or above it. -/
+theorem C04_raise_through_natives (levels : List Nat) (f : Fiber) (h : Handler) (rest : List Handler)
+    (st : Nat)
+    (hh : f.handlers = h :: rest) (hpos : 0 < h.frameDepth)
+    (hfr : (f.frames[h.frameDepth - 1]?).map Frame.start = some st)
+    (hd : st + h.slotDepth ≤ f.stack.length) :
+    (f.raiseThrough levels).1 = .potentiallyHandled ∧
+    (f.raiseThrough levels).2.2 = levels.dropWhile (fun b => decide (h.frameDepth ≤ b)) ∧
+    (f.raiseThrough levels).2.1.ip = h.offset ∧
+    (f.raiseThrough levels).2.1.cur = h.frameDepth - 1 ∧
+    (f.raiseThrough levels).2.1.stack = f.stack.take (st + h.slotDepth) ∧
+    (∀ i, i < st + h.slotDepth → (f.raiseThrough levels).2.1.stack[i]? = f.stack[i]?) ∧
+    (f.raiseThrough levels).2.1.handlers = h :: rest ∧
+    (f.raiseThrough levels).2.1.error = f.error ∧
+    ((f.raiseThrough levels).2.1.finishUnwind).map (·.frames.length) = some h.frameDepth := by
+  induction levels generalizing f with
+  | nil =>
+    obtain ⟨a1, a2, a3, a4, _, a6, a7, a8, a9⟩ :=
+      C04_unwind_restores_mechanism f h rest st none hh (by simpa using hpos) hfr hd
+    exact ⟨a1, rfl, a2, a3, a4, a6, a7, a8, a9⟩
+  | cons b outer ih =>
+    by_cases hb : b < h.frameDepth
+    · obtain ⟨a1, a2, a3, a4, _, a6, a7, a8, a9⟩ :=
+        C04_unwind_restores_mechanism f h rest st (some b) hh (by simpa using hb) hfr hd
+      have hr : f.raiseThrough (b :: outer) = ((f.raise (some b)).1, (f.raise (some b)).2, b :: outer) := by
+        unfold Fiber.raiseThrough
+        cases hx : f.raise (some b) with
+        | mk r f' =>
+          rw [hx] at a1
+          simp only at a1
+          subst a1
+          rfl
+      rw [hr]
+      refine ⟨a1, ?_, a2, a3, a4, a6, a7, a8, a9⟩
+      have : ¬ h.frameDepth ≤ b := by omega
+      simp [this]
+    · have hle : h.frameDepth ≤ b := by omega
+      have hr : f.raiseThrough (b :: outer) = f.raiseThrough outer := by
+        conv => lhs; unfold Fiber.raiseThrough
+        rw [raise_stopped f h rest b hh hle]
+        exact raiseThrough_storeIp f outer
+      rw [hr]
+      obtain ⟨a1, a2, a3⟩ := ih f hh hfr hd
+      refine ⟨a1, ?_, a3⟩
+      rw [a2]
+      simp [List.dropWhile, hle]
+
+/-- with no handler at all the error is reported exactly once, by the outermost loop, after every
+native on the host stack has returned it; the stack is untouched -/
+theorem C04_raise_through_natives_unhandled (levels : List Nat) (f : Fiber) (hh : f.handlers = []) :
+    (f.raiseThrough levels).1 = .unhandled ∧ (f.raiseThrough levels).2.2 = [] ∧
+    (f.raiseThrough levels).2.1.stack = f.stack ∧ (f.raiseThrough levels).2.1.error = f.error ∧
+    (f.raiseThrough levels).2.1.frames.length = f.frames.length := by
+  induction levels with
+  | nil =>
+    obtain ⟨s1, s2, s3, s4, _⟩ := storeIp_fields f
+    have : f.raise none = (.unhandled, f.storeIp) := by
+      unfold Fiber.raise Fiber.stackUnwind
+      rw [s1, hh]
+    unfold Fiber.raiseThrough
+    rw [this]
+    exact ⟨rfl, rfl, s2, s3, s4⟩
+  | cons b outer ih =>
+    have hr : f.raiseThrough (b :: outer) = f.raiseThrough outer := by
+      conv => lhs; unfold Fiber.raiseThrough
+      rw [raise_stopped_nil f b hh]
+      exact raiseThrough_storeIp f outer
+    rw [hr]
+    exact ih
+
+theorem dropWhile_append_all (p : Nat → Bool) (newer older : List Nat)
+    (hn : ∀ b ∈ newer, p b = true) (ho : ∀ b ∈ older.head?, p b = false) :
+    (newer ++ older).dropWhile p = older := by
+  induction newer with
+  | nil =>
+    cases older with
+    | nil => rfl
+    | cons a r =>
+      have := ho a (by simp)
+      simp [this]
+  | cons a r ih =>
+    have ha := hn a (by simp)
+    simp only [List.cons_append, List.dropWhile, ha]
+    exact ih (fun b hb => hn b (by simp [hb]))
+
+/-- **C04_handler_runs_in_its_own_loop.**  From the `try` to the raise, with natives in between.
+`PushHandler` executes in a fiber `f0` while the re-entries `older` are on the host stack; every
+nested loop runs with at least its callee's frame above its bottom (`b < frame count`, which is what
+`run_fun` establishes by recording the depth before it pushes the frame).  Later any number of
+further re-entries `newer` happened while the handler's frame was still live (their bottoms are
+`≥` the handler's frame depth — the frame count can only have been at or above it), and the handler
+is again innermost.  A raise now is delivered to that handler, and when its catch clause starts
+exactly `older` is left on the host stack: every native entered after the `try` has returned the
+error, no native entered before it has been abandoned — the clause runs in the very loop that ran
+the `try`. -/
+theorem C04_handler_runs_in_its_own_loop
+    (f0 : Fiber) (older newer : List Nat) (rd jump : Nat)
+    (hold : ∀ b ∈ older, b < f0.frames.length)
+    (hpos : 0 < f0.frames.length)
+    (h : Handler) (hpush : (opPushHandler f0 rd jump).handlers = h :: f0.handlers)
+    (f : Fiber) (rest : List Handler) (st : Nat)
+    (hsame : f.handlers = h :: rest)
+    (hnew : ∀ b ∈ newer, f0.frames.length ≤ b)
+    (hfr : (f.frames[f0.frames.length - 1]?).map Frame.start = some st)
+    (hd : st + rd ≤ f.stack.length) :
+    (f.raiseThrough (newer ++ older)).1 = .potentiallyHandled ∧
+    (f.raiseThrough (newer ++ older)).2.2 = older ∧
+    (f.raiseThrough (newer ++ older)).2.1.ip = f0.ip + 5 + jump ∧
+    (f.raiseThrough (newer ++ older)).2.1.stack = f.stack.take (st + rd) := by
+  have hH : f.handlers = ⟨f0.ip + 5 + jump, f0.frames.length, rd⟩ :: rest := by
+    rw [hsame]
+    simp only [opPushHandler, Fiber.pushExceptionHandler, List.cons.injEq, and_true] at hpush
+    rw [← hpush]
+  obtain ⟨a1, a2, a3, _, a5, _⟩ :=
+    C04_raise_through_natives (newer ++ older) f ⟨f0.ip + 5 + jump, f0.frames.length, rd⟩ rest st hH hpos hfr hd
+  refine ⟨a1, ?_, a3, a5⟩
+  rw [a2]
+  apply dropWhile_append_all
+  · intro b hb; simpa using hnew b hb
+  · intro b hb
+    have : b ∈ older := by
+      cases older with
+      | nil => simp at hb
+      | cons a r => simp at hb; simp [hb]
+    have := hold b this
+    simp only [decide_eq_false_iff_not]; omega
+
+/-- non-vacuity: script (frame 1) → `each` stub (2) → callback (3) with a `try` → `.list()`
+(stack-less, re-entry at 3) → map callback (4) raising; an outer handler in the script frame.
+The raise goes to the callback's handler, with the inner re-entry gone and the outer one still
+there; without the callback's handler it goes to the script's handler with both gone. -/
+example :
+    let f : Fiber := { stack := [.nil, .nil, .nil, .nil, .nil, .nil, .nil],
+                       frames := [⟨0, 40, 0⟩, ⟨9, 0, 1⟩, ⟨2, 6, 2⟩, ⟨3, 8, 4⟩], cur := 3,
+                       handlers := [⟨55, 3, 2⟩, ⟨77, 1, 1⟩], error := some (.inst errorCls 0), ip := 8 }
+    let g : Fiber := { f with handlers := [⟨77, 1, 1⟩] }
+    (f.raiseThrough [3, 1]).1 = .potentiallyHandled ∧ (f.raiseThrough [3, 1]).2.2 = [1] ∧
+    (f.raiseThrough [3, 1]).2.1.ip = 55 ∧ (f.raiseThrough [3, 1]).2.1.stack.length = 4 ∧
+    (g.raiseThrough [3, 1]).1 = .potentiallyHandled ∧ (g.raiseThrough [3, 1]).2.2 = [] ∧
+    (g.raiseThrough [3, 1]).2.1.ip = 77 ∧ (g.raiseThrough [3, 1]).2.1.stack.length = 1 := by decide +kernel
+
+/-- **C04_stackless_native_handler_of_caller** (the state of the repaired D185).  A native that runs
+in the caller's frame (`NativeEnvironment::StackLess`: no stub frame) re-enters the interpreter with
+`bottom_frame` = the caller's own frame count, so a handler of the CALLER's frame has
+`frameDepth = bottom_frame`: the nested loop's unwind STOPS (before the repair `>=` let it resume in
+the caller's catch clause while the native was still running on the host stack), the native returns
+the error and the caller's loop delivers it to that handler with no re-entry left. -/
+theorem C04_stackless_native_handler_of_caller :
     let f : Fiber := { stack := [.nil, .nil, .nil], frames := [⟨0, 40, 0⟩, ⟨2, 6, 1⟩], cur := 1,
                        handlers := [⟨77, 1, 1⟩], error := some (.inst errorCls 0), ip := 6 }
-    (f.stackUnwind (some 1)).1 = .potentiallyHandled ∧ (f.stackUnwind (some 1)).2.cur = 0 ∧
-    (f.stackUnwind (some 2)).1 = .unwindStopped := by decide +kernel
+    (f.stackUnwind (some 1)).1 = .unwindStopped ∧ (f.stackUnwind (some 2)).1 = .unwindStopped ∧
+    (f.raiseThrough [1]).1 = .potentiallyHandled ∧ (f.raiseThrough [1]).2.2 = [] ∧
+    (f.raiseThrough [1]).2.1.ip = 77 ∧ (f.raiseThrough [1]).2.1.cur = 0 := by decide +kernel
+
+/-- **[G]** the comparison `Fiber::stack_unwind` makes between the handler's frame depth and
+`bottom_frame` (regenerated from fiber/mod.rs) is the model's: strictly above, default 0, and the
+two no-handler results; changing `>` back to `>=` in the Rust text re-opens this lemma. -/
+theorem Gen_unwindRule_eq_model :
+    (∀ d b : Nat, compareOp Gen.unwindBottomCompare d b = decide (b < d)) ∧
+    Gen.unwindBottomDefault = 0 ∧ Gen.unwindNoHandlerNested = "UnwindStopped" ∧
+    Gen.unwindNoHandlerNormal = "Unhandled" := by
+  refine ⟨?_, by decide, by decide, by decide⟩
+  intro d b
+  show compareOp ">" d b = _
+  simp [compareOp]
+
+/-- **[G]** the places where native code re-enters the interpreter; each records the frame count
+before the callee's frame (`Fiber.reentryDepth`) — the translator fails on any other text -/
+theorem Gen_reentrySites_eq_model : Gen.reentrySites = ["run_fun", "run_method", "runtime_error"] := by
+  decide
+
+/-- **[G]** every native of laythe_lib that holds temporary roots across a `?` pops, on that exit,
+exactly the roots it pushed before it (the repaired D12): whatever the root count was when the
+native was called, it is the same when the error leaves it — the premise of `Fiber.raiseThrough`
+("the native returns the error and nothing else changes") as far as the root vector goes. -/
+theorem Gen_nativeRootExits_balanced :
+    Gen.nativeRootExits.map (·.1) =
+      ["IterReduce", "IterEach", "ZipIterator", "IterAll", "IterAny", "IterToList", "ListCollect", "TupleCollect"] ∧
+    ∀ r ∈ Gen.nativeRootExits, ∀ e ∈ r.2, ∀ before : Nat, before + e.1 - e.2 = before := by
+  refine ⟨by decide, ?_⟩
+  have hall : Gen.nativeRootExits.all (fun r => r.2.all (fun e => e.1 == e.2)) = true := by decide
+  intro r hr e he before
+  have h1 := List.all_eq_true.mp hall r hr
+  have h2 := List.all_eq_true.mp h1 e he
+  have : e.1 = e.2 := by simpa using h2
+  omega
 
 /-! ### C04_handler_balance -/
 
@@ -467,7 +703,7 @@ theorem C04_handler_depth (arity : Nat) (code : List Sym) (hc : checkHandlerDept
     · exact h
     · simp [h] at hsafe
 
-/-! ### Witnesses of the defects of the pinned tree -/
+/-! ### Regression facts: the repaired defects D1 and D3 on the model of the code as it was -/
 
 /-- `fn f(a, b) { try { raise Error('x'); } catch e: Error { } print(a); }`: the stream `f` is
 compiled to before `apply_stack_effects` (compile dump `PRE`, delimiters removed). -/
